@@ -1,0 +1,43 @@
+//go:build verif && (verif_all || verif_c09)
+// +build verif
+// +build verif_all verif_c09
+
+package gocql
+
+// Verification hooks (build tag `verif`), add-only: CONCURRENT first uses of one statement in the
+// routing-key info cache. The server's answer to PREPARE is held back: the prepared-statement cache of
+// the connection-less routing session (verif_export_c09c.go) gets an inflightPrepare whose `done`
+// channel is still open, so the goroutine that computes the routing-key info (the owner of the
+// inflight cache entry) blocks in Conn.prepareStatement, and every other goroutine that asks for the
+// same statement blocks in inflightCachedEntry.wg.Wait, until the harness releases the answer.
+
+import "errors"
+
+// VerifC09PendingPrepare replaces the session's prepared-statement cache entry for stmt by one that
+// is still in flight. release(true) delivers the answer (preparedBody, parsed here by the real
+// framer); release(false) delivers a PREPARE failure and removes the entry, as Conn.prepareStatement
+// does when the request fails.
+func VerifC09PendingPrepare(s *Session, proto byte, stmt string, preparedBody []byte) (release func(ok bool), err error) {
+	ps, err := verifC09ParsePrepared(proto, preparedBody)
+	if err != nil {
+		return nil, err
+	}
+	fl := &inflightPrepare{done: make(chan struct{})}
+	var keys []string
+	for id := range s.ring.hosts {
+		k := s.stmtsLRU.keyFor(id, "", stmt)
+		keys = append(keys, k)
+		s.stmtsLRU.add(k, fl)
+	}
+	return func(ok bool) {
+		if ok {
+			fl.preparedStatment = ps
+		} else {
+			fl.err = errors.New("verif: PREPARE failed")
+			for _, k := range keys {
+				s.stmtsLRU.remove(k)
+			}
+		}
+		close(fl.done)
+	}, nil
+}
